@@ -27,6 +27,7 @@ import SigModel.Lemmas.C12e
 import SigModel.Lemmas.C12f
 import SigModel.Lemmas.C12g
 import SigModel.Lemmas.C12h
+import SigModel.Lemmas.C12i
 
 namespace SigModel.Props.C12
 open SigModel.Trace SigModel.TraceE2E SigModel.Lemmas.C12 List
@@ -248,6 +249,29 @@ theorem depGraph_counts (spans : List Span) (hnd : (spans.map (·.id)).Nodup) (a
   · rintro ⟨hab, rfl, hpos⟩
     rw [← depPairs_count hnd a b hab] at hpos ⊢
     exact ⟨count_pos_iff.1 hpos, rfl⟩
+
+/-- C12.3 at FULL STRENGTH since the repair c12-11 (`dropRedeliveredSpans`): for EVERY list of collected spans —
+re-delivered ones included — MakeTracesDependancyGraph (`depGraphOf` = drop the re-delivered spans, then fold) has an
+entry exactly for the service pairs `a ≠ b` joined by at least one parent→child pair of DISTINCT spans, and the entry
+is the number of such pairs: a span that was delivered several times counts once. -/
+theorem depGraphOf_counts (spans : List Span) (a b n : Nat) :
+    ((a, b), n) ∈ depGraphOf spans ↔ a ≠ b ∧ n = crossPairs (dedupIds spans) a b ∧ 0 < n :=
+  depGraph_counts (dedupIds spans) (Lemmas.C12.dedupIds_nodup spans) a b n
+
+/-- … the spans that are counted have pairwise different ids, and nothing is dropped when no span was delivered twice -/
+theorem dedupIds_spec (spans : List Span) :
+    ((dedupIds spans).map (·.id)).Nodup ∧ (∀ s ∈ dedupIds spans, s ∈ spans) ∧
+    ((spans.map (·.id)).Nodup → dedupIds spans = spans ∧ depGraphOf spans = depGraph spans ∧ redOfSpans spans = red spans) := by
+  refine ⟨Lemmas.C12.dedupIds_nodup spans, fun s hs => (Lemmas.C12.dedupAux_mem spans [] s hs).1, fun h => ?_⟩
+  have e := Lemmas.C12.dedupIds_of_nodup spans h
+  exact ⟨e, by unfold depGraphOf; rw [e], by unfold redOfSpans; rw [e]⟩
+
+/-- OLD behaviour (before c12-11) REFUTED: the fold over the stored RECORDS counted a child span that was delivered
+twice as two parent→child pairs (root in service 1, child in service 2, the child stored twice: 1>2 = 2). -/
+theorem depGraph_redelivered_old_counterexample :
+    depGraph [⟨2, 1, false, 2, 0, 5, false⟩, ⟨2, 1, false, 2, 0, 5, false⟩, ⟨1, 0, false, 1, 0, 9, false⟩] = [((1, 2), 2)] ∧
+    depGraphOf [⟨2, 1, false, 2, 0, 5, false⟩, ⟨2, 1, false, 2, 0, 5, false⟩, ⟨1, 0, false, 1, 0, 9, false⟩] = [((1, 2), 1)] := by
+  constructor <;> decide
 
 /-- one entry per service pair, in sorted order (the canonical form the Oracle prints) -/
 theorem depGraph_keys (spans : List Span) :
@@ -490,10 +514,9 @@ only) collects every record of the window that IS a span — one that does not u
 skipped, every other one is kept — for every page size, every number of records and every position of the
 unreadable records; without unreadable records: every record -/
 theorem red_collects_all (P : Nat) (hP : 0 < P) (recs : List Rec) :
-    redCollect P recs = readable recs ∧ (recs.any poison = false → redCollect P recs = recs) := by
-  have h := collectSpans_eq P hP recs
+    redCollect P recs = dedupRecs (readable recs) ∧ (recs.any poison = false → redCollect P recs = dedupRecs recs) := by
+  have h : redCollect P recs = dedupRecs (readable recs) := by unfold redCollect; rw [collectSpans_eq P hP recs]
   refine ⟨h, fun hp => ?_⟩
-  unfold redCollect
   rw [h, readable_of_no_poison recs hp]
 
 /-- BEFORE the repair c12-7 a page was unmarshalled at once: ONE document posted to index `traces` by another
@@ -637,10 +660,97 @@ by one, c12-7) the graph is the fold over EVERY record of the window that is a s
 number of records and every position of records that do not unmarshal into `structs.Span` (those are skipped,
 nothing else is); without such records: the fold over every record -/
 theorem dep_collects_all (P : Nat) (hP : 0 < P) (recs : List Rec) :
-    dep P recs = depOf recs ∧ (recs.any poison = false → dep P recs = depFold recs) := by
+    dep P recs = depOf recs ∧ (recs.any poison = false → dep P recs = depFold (dedupRecs recs)) := by
   have h : dep P recs = depOf recs := by unfold dep depOf; rw [collectSpans_eq P hP recs]
   refine ⟨h, fun hp => ?_⟩
   rw [h]; unfold depOf; rw [readable_of_no_poison recs hp]
+
+/-- C12.9b (repair c12-11) A RE-DELIVERED SPAN COUNTS ONCE, in the dependency graph and in the RED rows, for EVERY
+window: a stored record whose (trace id, span id) is that of a span met EARLIER in the result (the search returns the
+newest record first: the record is an earlier delivery of that span) changes nothing — the window with it and the
+window without it give the same graph and the same RED rows, whatever the other records are and wherever it stands. -/
+theorem redelivered_span_counts_once (P : Nat) (hP : 0 < P) (a b : List Rec) (x r : Rec) (hx : x ∈ a)
+    (hxr : poison x = false) (hk : (x.trace, x.sid) = (r.trace, r.sid)) :
+    dep P (a ++ r :: b) = dep P (a ++ b) ∧ redE2E P (a ++ r :: b) = redE2E P (a ++ b) := by
+  have hc : ∀ l, collectSpans P l = readable l := collectSpans_eq P hP
+  have key : dedupRecs (readable (a ++ r :: b)) = dedupRecs (readable (a ++ b)) := by
+    rw [Lemmas.C12.readable_append, Lemmas.C12.readable_append]
+    by_cases hr : poison r = true
+    · have : readable (r :: b) = readable b := by simp [readable, hr]
+      rw [this]
+    · have : readable (r :: b) = r :: readable b := by simp [readable, hr]
+      rw [this]
+      exact Lemmas.C12.dedupRecs_drop_later (readable a) (readable b) r x
+        (by simp [readable, hx, hxr]) (by simpa [Lemmas.C12.recKey] using hk)
+  constructor
+  · unfold dep; rw [hc, hc, key]
+  · unfold redE2E redCollect; rw [hc, hc, key]
+
+/-- C12.9c (repair c12-12) ONE DOCUMENT WITH A STRING AS ITS `duration` NO LONGER HIDES THE OTHER SPANS OF ITS BLOCK:
+the segment writer rewrites the duration column of such a block as strings (`consolidate`), and the views read the
+decimal text of a number like the number — for EVERY block, the records the views see are the records as stored
+(only the flag that says "returned as text" differs) and exactly the same records are skipped as unreadable. -/
+theorem consolidated_block_keeps_its_spans (recs : List Rec) :
+    (consolidate recs).map (fun r => { r with durAsText := false }) = recs.map (fun r => { r with durAsText := false }) ∧
+    (consolidate recs).map poison = recs.map poison := by
+  unfold consolidate
+  split
+  · constructor
+    · rw [List.map_map]
+      apply List.map_congr_left
+      intro r _
+      simp only [Function.comp]
+      split <;> rfl
+    · rw [List.map_map]
+      apply List.map_congr_left
+      intro r _
+      simp only [Function.comp]
+      split <;> rfl
+  · exact ⟨rfl, rfl⟩
+
+/-- OLD behaviour (before c12-12) REFUTED: with the span structs that took numbers only, NO record of a block that
+holds a document with a string duration could be read by any view (span tree: 400 "can not find a root span";
+dependency graph and RED rows of the block: empty). -/
+theorem consolidated_block_old_hid_every_span (recs : List Rec) (h : recs.any isStrDur = true) :
+    ∀ r ∈ consolidate recs, poisonOld r = true := by
+  intro r hr
+  unfold consolidate at hr
+  rw [if_pos h] at hr
+  obtain ⟨x, _, rfl⟩ := List.mem_map.1 hr
+  by_cases hx : x.durBad.isSome = true
+  · simp [hx, poisonOld, poison]
+  · simp [hx, poisonOld]
+
+example : -- non-vacuous: a consolidated block — the document with the duration "soon" is skipped, the two spans whose
+    -- durations come back as text are read (and were not before the repair)
+    (readable
+      [{ trace := "ab", sid := "dd", pid := some "01", svc := some "b", name := some "doc", start := 1, end_ := 2, dur := 0, status := some "ok", durBad := some "soon" },
+       { trace := "ab", sid := "02", pid := some "01", svc := some "b", name := some "x", start := 1, end_ := 2, dur := 1, status := some "ok", durAsText := true },
+       { trace := "ab", sid := "01", pid := some "", svc := some "a", name := some "y", start := 0, end_ := 3, dur := 3, status := some "ok", durAsText := true }]).map (·.sid)
+      = ["02", "01"] ∧
+    ([{ trace := "ab", sid := "02", pid := some "01", svc := some "b", name := some "x", start := 1, end_ := 2, dur := 1, status := some "ok", durAsText := true }].filter
+      (fun r : Rec => !poisonOld r)) = [] := by decide
+
+/-- … the spans that are folded have pairwise different (trace id, span id), and when no span of the window was
+delivered twice every readable record is folded, as before the repair -/
+theorem dedupRecs_spec (recs : List Rec) :
+    ((dedupRecs recs).map (fun r => (r.trace, r.sid))).Nodup ∧
+    ((recs.map (fun r => (r.trace, r.sid))).Nodup → dedupRecs recs = recs) :=
+  ⟨Lemmas.C12.dedupRecsAux_nodup recs [], Lemmas.C12.dedupRecs_of_nodup recs⟩
+
+/-- OLD behaviour (before c12-11) REFUTED: the fold over the stored records counted the pair s1 → s2 twice when the
+child span had been delivered twice (witness corpus/tracee2e.ops) -/
+theorem dep_records_old_counterexample :
+    ¬ ∀ (a b : List Rec) (x r : Rec), x ∈ a → poison x = false → (x.trace, x.sid) = (r.trace, r.sid) →
+        depOfRecordsOld (a ++ r :: b) = depOfRecordsOld (a ++ b) := by
+  intro h
+  have := h
+    [{ trace := "ab", sid := "02", pid := some "01", svc := some "s2", name := some "x", start := 1, end_ := 2, dur := 1, status := some "ok" }]
+    [{ trace := "ab", sid := "01", pid := some "", svc := some "s1", name := some "y", start := 0, end_ := 3, dur := 3, status := some "ok" }]
+    { trace := "ab", sid := "02", pid := some "01", svc := some "s2", name := some "x", start := 1, end_ := 2, dur := 1, status := some "ok" }
+    { trace := "ab", sid := "02", pid := some "01", svc := some "s2", name := some "x", start := 1, end_ := 2, dur := 1, status := some "ok" }
+    (by simp) (by decide) rfl
+  exact absurd this (by decide)
 
 /-- BEFORE the repair c12-7 the statement was false: a page was unmarshalled at once, and ONE document posted to index
 `traces` by another protocol with a duration that is not a uint64 (here the string "soon") left the WHOLE window
